@@ -72,7 +72,8 @@ Walk(j, done, bad) ==
       before == Tree(j - 1)
       after  == Tree(j)
   IN
-  IF st.op # "call" THEN Walk(j + 1, done, bad)
+  IF st.op = "restart" THEN Walk(j + 1, {}, bad)            \* a new process: nothing has been exported yet
+  ELSE IF st.op # "call" THEN Walk(j + 1, done, bad)
   ELSE
   LET c == st
       ok == st.ret = "Ok"
@@ -119,7 +120,8 @@ ModelRun(s, j) == IF j > Len(H.steps) THEN s
                                   [] st.op = "putfile" -> PutFile(s, st.path, NoFile)
                                   [] st.op = "rm" -> RemovePath(s, st.path)
                                   [] st.op = "swapout" -> SwapOut(s, st.path)
-                                  [] st.op = "swapin" -> SwapIn(s, st.path), j + 1)
+                                  [] st.op = "swapin" -> SwapIn(s, st.path)
+                                  [] st.op = "restart" -> Restart(s), j + 1)
 
 PredEqual ==
   LET s  == ModelRun(InitS, 1)
